@@ -119,8 +119,6 @@ class _VersionMatch(GenericEquality, restriction.base):
     @staticmethod
     def _convert_ops(inst):
         if inst.negate:
-            if inst.droprev:
-                return inst.vals
             return tuple(sorted({-1, 0, 1}.difference(inst.vals)))
         return inst.vals
 
@@ -140,7 +138,9 @@ class _VersionMatch(GenericEquality, restriction.base):
 
     # TODO: cached_hash?
     def __hash__(self):
-        return hash((self.droprev, self.ver, self.rev, self.negate, self.vals))
+        # must agree with __eq__: negate is folded into the operator set and revisions
+        # compare numerically (None == r0), so neither may be hashed in its raw form.
+        return hash((self.droprev, self.ver, self._convert_ops(self)))
 
 
 class VersionMatch(packages.PackageRestriction):
